@@ -540,6 +540,61 @@ pub fn roots(tier: Tier) -> Vec<State> {
 }
 
 
+/// The same curve and the same requests in another length unit (microns, tens of kilometres): portions, splits
+/// and trims must be the unit-1 results multiplied by the unit. Requests are taken away from vertices and from
+/// the tolerance boundaries (where a comparison may legitimately fall the other way after rounding).
+fn judge_units(item: &(Vec<usize>, bool), l: &mut Local) {
+    let lat = gen::lattice2(3);
+    let (seq, fc) = item;
+    let base: Vec<Point2> = seq.iter().map(|i| gen::p2(lat[*i], 1.0)).collect();
+    let c1 = match Curve2::from_points(&base, 1e-6, *fc) {
+        Ok(c) => c,
+        Err(_) => return,
+    };
+    let big_l = c1.length();
+    let args: Vec<f64> = std::iter::once(if *fc { 1.0 } else { 0.0 }).chain(seq.iter().map(|i| *i as f64)).collect();
+    let mk = |what: String| { let args = args.clone(); move || json!({"state": {"pts": [[0.0, 0.0]], "tol": 1e-6}, "action": "units", "args": args, "note": what}) };
+    for u in [1e-6, 1e4] {
+        let pu: Vec<Point2> = base.iter().map(|p| Point2::from(p.coords * u)).collect();
+        let cu = match Curve2::from_points(&pu, 1e-6 * u, *fc) {
+            Ok(c) => c,
+            Err(_) => {
+                l.check("the same curve in another length unit can be built", "", false, mk(format!("{:?} closed {} unit {:e}", seq, fc, u)), String::new);
+                continue;
+            }
+        };
+        let same = |a: Option<Curve2>, b: Option<Curve2>| -> Result<(), String> {
+            match (a, b) {
+                (None, None) => Ok(()),
+                (Some(x), Some(y)) => {
+                    if x.count() != y.count() {
+                        return Err(format!("{} vertices against {}", y.count(), x.count()));
+                    }
+                    let worst = x.points().iter().zip(y.points().iter()).map(|(p, q)| d2(&Point2::from(p.coords * u), q)).fold(0.0, f64::max);
+                    if worst <= 1e-9 * u * (1.0 + big_l) { Ok(()) } else { Err(format!("vertices differ by {:e} of the unit", worst / u)) }
+                }
+                (a, b) => Err(format!("unit 1 gives {:?}, unit {:e} gives {:?}", a.map(|c| c.length()), u, b.map(|c| c.length() / u))),
+            }
+        };
+        let grid: Vec<f64> = (0..8).map(|k| (k as f64 + 0.37) / 8.0 * big_l).collect();
+        for a in grid.iter() {
+            for b in grid.iter() {
+                if (a - b).abs() < 1e-3 * big_l {
+                    continue;
+                }
+                l.eval();
+                l.bucket("portion in another length unit");
+                let r = same(guarded(|| c1.between_lengths(*a, *b)).ok().flatten(), guarded(|| cu.between_lengths(*a * u, *b * u)).ok().flatten());
+                l.check("a portion taken in another length unit is the same portion", "", r.is_ok(), mk(format!("{:?} closed {} unit {:e} lengths {} {}", seq, fc, u, a, b)), || r.clone().err().unwrap_or_default());
+            }
+            l.eval();
+            let rf = same(guarded(|| c1.trim_front(*a)).ok().flatten(), guarded(|| cu.trim_front(*a * u)).ok().flatten());
+            let rb = same(guarded(|| c1.trim_back(*a)).ok().flatten(), guarded(|| cu.trim_back(*a * u)).ok().flatten());
+            l.check("a trim taken in another length unit is the same trim", "", rf.is_ok() && rb.is_ok(), mk(format!("{:?} closed {} unit {:e} length {}", seq, fc, u, a)), || format!("{:?} {:?}", rf, rb));
+        }
+    }
+}
+
 /// The airfoil helper that cuts a closed section at the two ends of a station's spanning ray and returns
 /// the piece shorter than the requested fraction of the perimeter (first candidate: from the ray's origin
 /// forward to its end; second: the complement). Swept over rectangles x every pair of cut positions on a
@@ -708,7 +763,7 @@ pub fn run(tier: Tier) -> i32 {
     let depth = 3;
     let max_states = tier.pick(6_000_000, 30_000_000);
     cx.bounds = json!({"root_seq_len": tier.pick(3, 4), "depth": depth, "max_states": max_states, "tols": [1e-6, 0.05]});
-    cx.require(&["closed state", "open state", "non-initial state", "forward", "through the seam", "end exactly on a vertex", "reversed on open", "out of range", "shorter than tolerance", "control inside", "control through the seam", "split open", "split closed", "trim", "reversal", "no piece short enough", "first candidate piece", "second candidate piece", "beyond a station on a closed outline", "beyond a station on an open outline, piece ahead", "beyond a station on an open outline, piece behind"]);
+    cx.require(&["closed state", "open state", "non-initial state", "forward", "through the seam", "end exactly on a vertex", "reversed on open", "out of range", "shorter than tolerance", "control inside", "control through the seam", "split open", "split closed", "trim", "reversal", "no piece short enough", "first candidate piece", "second candidate piece", "beyond a station on a closed outline", "beyond a station on an open outline, piece ahead", "beyond a station on an open outline, piece behind", "portion in another length unit"]);
     cx.assume("well-posed = in range, not reversed on an open curve, travelled length and |l1-l0| both >= tol; requests within 1e-6*tol of the tolerance boundary, and wrap requests whose raw difference is below tol, are gray");
     cx.assume("pieces are compared with the reference piece as arc-length point functions at 17 abscissae within 4*tol (the curve constructor merges vertices within tol at either end); pieces with an edge shorter than 4*tol are judged but not expanded");
     let (l, states, _emitted, reached, capped) = bfs_par(roots(tier), |s| s.key(), expand, depth, max_states);
@@ -734,6 +789,16 @@ pub fn run(tier: Tier) -> i32 {
     }
     let ls = sweep(&sub, judge_edge_sub_curve);
     cx.absorb(ls);
+    // the same portions in microns and in tens of kilometres
+    let lat = gen::lattice2(3);
+    let mut un: Vec<(Vec<usize>, bool)> = Vec::new();
+    for sq in gen::seqs(lat.len(), 2, 3) {
+        for fc in [false, true] {
+            un.push((sq.clone(), fc));
+        }
+    }
+    let lu = sweep(&un, judge_units);
+    cx.absorb(lu);
     let mut bey = Vec::new();
     for shape in 0..BEYOND_SHAPES.len() {
         for i in 0..16 {
@@ -752,6 +817,10 @@ pub fn run(tier: Tier) -> i32 {
 pub fn replay(case: &Val) -> Local {
     let c: Case = serde_json::from_value(case.clone()).expect("case");
     let mut l = Local::new();
+    if c.action == "units" {
+        judge_units(&(c.args[1..].iter().map(|x| *x as usize).collect(), c.args[0] != 0.0), &mut l);
+        return l;
+    }
     if c.action == "beyond_station" {
         judge_beyond_station(&(c.args[0] as usize, c.args[1] as usize, c.args[2] as usize, c.args[3] as usize), &mut l);
         return l;
